@@ -391,7 +391,9 @@ func (r *replicateChannelManager) StartReadCollection(ctx context.Context, db *m
 			DropTS:         dropCollectionMsg.EndTs(),
 		})
 		if err != nil {
-			log.Panic("failed to update task drop collection msg", zap.Error(err))
+			// a store failure must stop the task, not the process
+			log.Warn("failed to update task drop collection msg", zap.Error(err))
+			r.apiEventChan <- &api.ReplicateAPIEvent{EventType: api.ReplicateError, TaskID: taskID, Error: err}
 		}
 	})
 	r.replicateCollections[info.ID] = barrier.CloseChan
@@ -600,7 +602,9 @@ func (r *replicateChannelManager) AddPartition(ctx context.Context, dbInfo *mode
 			DropTS:         dropPartitionMsg.EndTs(),
 		})
 		if err != nil {
-			log.Panic("failed to update task drop partition msg", zap.Error(err))
+			// a store failure must stop the task, not the process
+			log.Warn("failed to update task drop partition msg", zap.Error(err))
+			r.apiEventChan <- &api.ReplicateAPIEvent{EventType: api.ReplicateError, TaskID: taskID, Error: err}
 		}
 	})
 	r.partitionLock.Lock()
